@@ -365,3 +365,308 @@ pub fn inconsistencies(j: &Value, out: &mut Vec<&'static str>) {
         _ => {}
     }
 }
+
+// ---------------------------------------------------------------- repair
+//
+// Rule-driven re-derivation of declared count / selector fields: after a
+// mutation the value is made consistent again (counts re-derived from their
+// arrays, fixed-size arrays padded, dependent arrays resized to the count
+// they share), so that it goes through the STRICT round-trip oracle instead
+// of a `validation-gap:` class. A repaired value is just another value of
+// the type: nothing in the oracle knows that it was repaired.
+
+fn jnum(n: u64) -> Value {
+    Value::Number(serde_json::Number::from(n))
+}
+
+fn arr_mut<'a>(o: &'a mut Obj, key: &str) -> Option<&'a mut Vec<Value>> {
+    o.get_mut(key)?.as_array_mut()
+}
+
+/// array behind an offset marker
+fn obj_arr_mut<'a>(o: &'a mut Obj, key: &str) -> Option<&'a mut Vec<Value>> {
+    o.get_mut(key)?.get_mut("obj")?.as_array_mut()
+}
+
+/// Resize by cycling the existing elements (or `filler` if there is none).
+pub fn resize_cycling(a: &mut Vec<Value>, n: usize, filler: &Value) {
+    if a.len() > n {
+        a.truncate(n);
+        return;
+    }
+    let base = a.len();
+    while a.len() < n {
+        let x = if base == 0 { filler.clone() } else { a[a.len() % base].clone() };
+        a.push(x);
+    }
+}
+
+fn set_count(o: &mut Obj, count: &str, arr: &str) -> bool {
+    let Some(n) = o.get(arr).and_then(len_of) else { return false };
+    o.insert(count.into(), jnum(n));
+    true
+}
+
+fn set_count_nullable(o: &mut Obj, count: &str, arr: &str) -> bool {
+    let Some(n) = o.get(arr).and_then(through_obj).and_then(len_of) else { return false };
+    o.insert(count.into(), jnum(n));
+    true
+}
+
+/// resize the array behind a nullable marker to the value of `count`
+fn resize_nullable_to_count(o: &mut Obj, count: &str, arr: &str, filler: Value) -> bool {
+    let Some(n) = o.get(count).and_then(|c| c.as_u64()) else { return false };
+    if n > 70_000 {
+        return false;
+    }
+    let Some(a) = obj_arr_mut(o, arr) else { return false };
+    resize_cycling(a, n as usize, &filler);
+    true
+}
+
+fn resize_fixed(o: &mut Obj, arr: &str, n: usize) -> bool {
+    let Some(a) = arr_mut(o, arr) else { return false };
+    resize_cycling(a, n, &jnum(0));
+    true
+}
+
+fn fix_mark_classes(o: &mut Obj, mark_array: &str, base_array: &str, records: &str, anchors: &str) -> bool {
+    let Some(n) = o.get(mark_array).and_then(distinct_mark_classes) else { return false };
+    let Some(recs) = o.get_mut(base_array).and_then(|b| b.get_mut("obj")).and_then(|b| b.get_mut(records)).and_then(|r| r.as_array_mut()) else { return false };
+    if n == 0 {
+        recs.clear();
+        return true;
+    }
+    let null_anchor = serde_json::json!({"obj": null});
+    for r in recs.iter_mut() {
+        if let Some(a) = r.get_mut(anchors).and_then(|a| a.as_array_mut()) {
+            resize_cycling(a, n as usize, &null_anchor);
+        }
+    }
+    true
+}
+
+fn fix_by_name(name: &str, o: &mut Obj) -> bool {
+    match name {
+        "ValueRecord.explicit_format~present-fields" => {
+            let present = value_record_present_bits(o);
+            let cur = o.get("explicit_format").and_then(bits).unwrap_or(0);
+            o.insert("explicit_format".into(), serde_json::json!({"bits": cur | present}));
+            true
+        }
+        "SinglePosFormat2.value_records-same-format" => {
+            let Some(recs) = arr_mut(o, "value_records") else { return false };
+            let mut union = 0u64;
+            for r in recs.iter() {
+                if let Some(ro) = r.as_object() {
+                    union |= value_record_format(ro).unwrap_or(0) | value_record_present_bits(ro);
+                }
+            }
+            if union == 0 {
+                union = 4;
+            }
+            for r in recs.iter_mut() {
+                if let Some(ro) = r.as_object_mut() {
+                    ro.insert("explicit_format".into(), serde_json::json!({"bits": union}));
+                }
+            }
+            true
+        }
+        "MarkBasePosFormat1.mark_class_count~base_anchors" => fix_mark_classes(o, "mark_array", "base_array", "base_records", "base_anchors"),
+        "MarkMarkPosFormat1.mark_class_count~mark2_anchors" => fix_mark_classes(o, "mark1_array", "mark2_array", "mark2_records", "mark2_anchors"),
+        "MarkLigPosFormat1.mark_class_count~ligature_anchors" => {
+            let Some(n) = o.get("mark_array").and_then(distinct_mark_classes) else { return false };
+            let Some(atts) = o.get_mut("ligature_array").and_then(|b| b.get_mut("obj")).and_then(|b| b.get_mut("ligature_attaches")).and_then(|r| r.as_array_mut()) else { return false };
+            let null_anchor = serde_json::json!({"obj": null});
+            for att in atts.iter_mut() {
+                let Some(recs) = att.get_mut("obj").and_then(|a| a.get_mut("component_records")).and_then(|r| r.as_array_mut()) else { continue };
+                if n == 0 {
+                    recs.clear();
+                    continue;
+                }
+                for r in recs.iter_mut() {
+                    if let Some(a) = r.get_mut("ligature_anchors").and_then(|a| a.as_array_mut()) {
+                        resize_cycling(a, n as usize, &null_anchor);
+                    }
+                }
+            }
+            true
+        }
+        "Cmap0.glyph_id_array~256" => resize_fixed(o, "glyph_id_array", 256),
+        "Cmap2.sub_header_keys~256" => resize_fixed(o, "sub_header_keys", 256),
+        "Cmap8.is32~8192" => resize_fixed(o, "is32", 8192),
+        "Post.string_data-pascal-strings" => {
+            let Some(a) = arr_mut(o, "string_data") else { return false };
+            for s in a.iter_mut() {
+                if let Some(t) = s.as_str() {
+                    let fixed: String = t.chars().map(|c| if c.is_ascii() { c } else { '?' }).take(255).collect();
+                    *s = Value::String(fixed);
+                }
+            }
+            true
+        }
+        "PatchMapFormat1|2.uri_template_length~uri_template" => set_count(o, "uri_template_length", "uri_template"),
+        "PatchMapFormat1.max_entry_index~applied_entries_bitmap" => {
+            let Some(m) = o.get("max_entry_index").and_then(|c| c.as_u64()) else { return false };
+            let n = ((m + 1).div_ceil(8)) as usize;
+            resize_fixed(o, "applied_entries_bitmap", n)
+        }
+        "TableKeyedPatch.patches_count~patches" => {
+            let Some(n) = o.get("patches").and_then(len_of) else { return false };
+            if n == 0 {
+                return false;
+            }
+            o.insert("patches_count".into(), jnum(n - 1));
+            true
+        }
+        "Gasp.num_ranges~gasp_ranges" => set_count(o, "num_ranges", "gasp_ranges"),
+        "Cmap6.entry_count~glyph_id_array" => set_count(o, "entry_count", "glyph_id_array"),
+        "Cmap8|Cmap13.num_groups~groups" => set_count(o, "num_groups", "groups"),
+        "Cmap14.num_var_selector_records~var_selector" => set_count(o, "num_var_selector_records", "var_selector"),
+        "DefaultUvs.num_unicode_value_ranges~ranges" => set_count(o, "num_unicode_value_ranges", "ranges"),
+        "NonDefaultUvs.num_uvs_mappings~uvs_mapping" => set_count(o, "num_uvs_mappings", "uvs_mapping"),
+        "Colr.num_base_glyph_records~base_glyph_records" => set_count_nullable(o, "num_base_glyph_records", "base_glyph_records"),
+        "Colr.num_layer_records~layer_records" => set_count_nullable(o, "num_layer_records", "layer_records"),
+        "BaseGlyphList.num_base_glyph_paint_records~base_glyph_paint_records" => set_count(o, "num_base_glyph_paint_records", "base_glyph_paint_records"),
+        "LayerList.num_layers~paints" => set_count(o, "num_layers", "paints"),
+        "ClipList.num_clips~clips" => set_count(o, "num_clips", "clips"),
+        "ColorLine|VarColorLine.num_stops~color_stops" => set_count(o, "num_stops", "color_stops"),
+        // num_palettes governs three arrays: the (non-nullable) index array is
+        // the master, the two v1 arrays are resized to it
+        "Cpal.num_palettes~color_record_indices" => set_count(o, "num_palettes", "color_record_indices"),
+        "Cpal.num_palettes~palette_types_array" => resize_nullable_to_count(o, "num_palettes", "palette_types_array", serde_json::json!({"bits": 0})),
+        "Cpal.num_palettes~palette_labels_array" => resize_nullable_to_count(o, "num_palettes", "palette_labels_array", jnum(0xFFFF)),
+        "Cpal.num_color_records~color_records_array" => set_count_nullable(o, "num_color_records", "color_records_array"),
+        "Cpal.num_palette_entries~palette_entry_labels_array" => set_count_nullable(o, "num_palette_entries", "palette_entry_labels_array"),
+        "Mvar.value_record_count~value_records" => set_count(o, "value_record_count", "value_records"),
+        "Post.num_glyphs~glyph_name_index" => set_count(o, "num_glyphs", "glyph_name_index"),
+        "ConditionFormat3|4.condition_count~conditions" => set_count(o, "condition_count", "conditions"),
+        "Device.delta_format,start_size,end_size~delta_value" => {
+            let (Some(mut s), Some(mut e)) = (o.get("start_size").and_then(|v| v.as_u64()), o.get("end_size").and_then(|v| v.as_u64())) else { return false };
+            if e < s {
+                std::mem::swap(&mut s, &mut e);
+                o.insert("start_size".into(), jnum(s));
+                o.insert("end_size".into(), jnum(e));
+            }
+            let bits_per = match o.get("delta_format").and_then(|v| v.as_str()) {
+                Some("Local2BitDeltas") => 2,
+                Some("Local4BitDeltas") => 4,
+                Some("Local8BitDeltas") => 8,
+                _ => return false,
+            };
+            let words = ((e - s + 1) * bits_per).div_ceil(16) as usize;
+            resize_fixed(o, "delta_value", words)
+        }
+        "DeltaSetIndexMap.entry_format,map_count~map_data" => {
+            let Some(ef) = o.get("entry_format").and_then(bits) else { return false };
+            let entry_size = (((ef & 0x30) >> 4) + 1) as usize;
+            let Some(a) = arr_mut(o, "map_data") else { return false };
+            let n = a.len() / entry_size;
+            a.truncate(n * entry_size);
+            o.insert("map_count".into(), jnum(n as u64));
+            true
+        }
+        "VariationRegionList.axis_count~region_axes" => {
+            let Some(regs) = arr_mut(o, "variation_regions") else { return false };
+            let n = regs.first().and_then(|r| r.get("region_axes")).and_then(len_of).unwrap_or(0) as usize;
+            if n == 0 {
+                regs.clear();
+                return true;
+            }
+            let filler = regs[0]["region_axes"][0].clone();
+            for r in regs.iter_mut() {
+                if let Some(a) = r.get_mut("region_axes").and_then(|a| a.as_array_mut()) {
+                    resize_cycling(a, n, &filler);
+                }
+            }
+            o.insert("axis_count".into(), jnum(n as u64));
+            true
+        }
+        "ItemVariationData.item_count,word_delta_count,region_indexes~delta_sets" => {
+            let Some(regions) = o.get("region_indexes").and_then(len_of) else { return false };
+            let Some(mut wdc) = o.get("word_delta_count").and_then(|v| v.as_u64()) else { return false };
+            let long = wdc & 0x8000 != 0;
+            let mut words = wdc & 0x7FFF;
+            if words > regions {
+                words = regions;
+                wdc = words | if long { 0x8000 } else { 0 };
+                o.insert("word_delta_count".into(), jnum(wdc));
+            }
+            let (big, small) = if long { (4, 2) } else { (2, 1) };
+            let row = (words * big + (regions - words) * small) as usize;
+            let Some(a) = arr_mut(o, "delta_sets") else { return false };
+            if row == 0 {
+                a.clear();
+                return true;
+            }
+            let items = a.len() / row;
+            a.truncate(items * row);
+            o.insert("item_count".into(), jnum(items as u64));
+            true
+        }
+        "Cmap4.segment-arrays-equal-length" => {
+            let keys = ["end_code", "start_code", "id_delta", "id_range_offsets"];
+            let mut n = usize::MAX;
+            for k in keys {
+                n = n.min(o.get(k).and_then(len_of).unwrap_or(0) as usize);
+            }
+            for k in keys {
+                if let Some(a) = arr_mut(o, k) {
+                    a.truncate(n);
+                }
+            }
+            true
+        }
+        "FeatureRecord.feature_tag~feature_params" => {
+            let variant = o
+                .get("feature")
+                .and_then(through_obj)
+                .and_then(|f| f.get("feature_params"))
+                .and_then(through_obj)
+                .and_then(|p| p.as_object())
+                .and_then(|p| p.keys().next().cloned());
+            let tag = match variant.as_deref() {
+                Some("Size") => "size",
+                Some("StylisticSet") => "ss01",
+                Some("CharacterVariant") => "cv01",
+                _ => return false,
+            };
+            o.insert("feature_tag".into(), Value::String(tag.into()));
+            true
+        }
+        _ => false,
+    }
+}
+
+/// Make `j` consistent with respect to RULES (children first). Returns the
+/// number of fixes applied.
+pub fn repair(j: &mut Value) -> u32 {
+    let mut n = 0;
+    match j {
+        Value::Object(o) => {
+            for v in o.values_mut() {
+                n += repair(v);
+            }
+            // two passes: a fix may enable a later rule of the same object
+            for _ in 0..2 {
+                let mut any = false;
+                for r in RULES {
+                    if r.keys.iter().all(|k| o.contains_key(*k)) && (r.check)(o) == Some(false) && fix_by_name(r.name, o) {
+                        n += 1;
+                        any = true;
+                    }
+                }
+                if !any {
+                    break;
+                }
+            }
+        }
+        Value::Array(a) => {
+            for v in a {
+                n += repair(v);
+            }
+        }
+        _ => {}
+    }
+    n
+}
